@@ -78,6 +78,9 @@ def specSelect {α : Type} (sel : List Nat) (maxpages : Nat) (start : Nat) (page
   ((pages.zipIdx start).filter
     (fun pi => (sel.isEmpty || sel.contains pi.2) && (maxpages == 0 || pi.2 < maxpages))).map Prod.fst
 
+/-- A box given as (left, bottom, right, top). -/
+def Normalised (r : Rect) : Prop := r.1 ≤ r.2.2.1 ∧ r.2.1 ≤ r.2.2.2
+
 /-! ### Device space -/
 
 /-- Turn a sheet of width `w` clockwise by a quarter turn and put it back into the first quadrant:
